@@ -259,7 +259,17 @@ fn exec(mode: Mode, case: &Case, ctx: &Ctx) {
                     let issue_idx = reqs.len();
                     ctx.ev(format!("op{i} resolve r{r} addrs={n_addrs} t={}", t0.elapsed().as_millis()));
                     let issued = at();
-                    let rx = h.resolve_remote(EndpointAddr::from_parts(id, addrs)).await;
+                    // bounded liveness: handing a request to the map takes at most waiting for a terminated
+                    // actor task to be reaped; 600 virtual seconds without that is a stall of the whole map
+                    let rx = match tokio::time::timeout(Duration::from_secs(600), h.resolve_remote(EndpointAddr::from_parts(id, addrs))).await {
+                        Ok(rx) => rx,
+                        Err(_) => {
+                            if mode == Mode::C21 {
+                                ctx.violate("request-never-accepted-map-stalled", format!("op{i}: resolve for r{r} was not taken up by any state instance within 600 virtual seconds (the remote map is stuck waiting)"));
+                            }
+                            return;
+                        }
+                    };
                     reqs.push(Req { remote: *r, port: first_port, n_addrs: *n_addrs, issued, issue_idx });
                     let answers = answers.clone();
                     let ctx = ctx.clone();
